@@ -541,7 +541,7 @@ class SymExec:
             return [self.eval(x, st, depth) for x in e]
         if not isinstance(e, dict):
             return e
-        k = e["k"]
+        k = e.get("k")
         if k == "path":
             if e["p"] in st.locals:
                 return copy.deepcopy(st.locals[e["p"]])
